@@ -38,6 +38,10 @@ NAME_FAMILIES = {
                          "struct Ov { void m(); void m(int); static int s(); Ov(); Ov(int); ~Ov(); };\n"
                          "template<class T, class U> struct Tm { T t; U *u; }; struct UsesTm { Tm<int, float> a; Tm<char, Tm<int,int> > b; };\n"
                          "struct Nest { struct In { int i; } in; enum E { A } e; };\n"),
+    # types that are reachable from the roots only through the signature of a function pointer
+    "fnptr-signature-types": ("c", "struct io_ctx { int fd; };\nstruct io_stat { long n; };\ntypedef struct io_stat io_stat_t;\nenum io_mode { IO_R, IO_W };\n"
+                                   "struct io_ops { int (*open)(struct io_ctx *c, const char *p, enum io_mode m); io_stat_t (*stat)(struct io_ctx *c);\n"
+                                   "  void (*each)(void (*inner)(struct io_ctx *)); };\nstruct io_user { struct io_ops *ops; int n; };\n"),
     # overload suffixes (`f`, `f1`, `f2`...) next to members and functions that are literally called `f1`, in
     # every declaration order; constructors and static methods as well
     "cxx-overload-names": ("c++", "struct Chan { void send(const char *); void send1(); void send(int); void send(int, int); void send2(); };\n"
@@ -288,6 +292,18 @@ def run(res, tier):
                 ex[k:k + 2] = ["--module-raw-line", "root", ex[k + 1]]
             jobs.append({"id": jid, "args": ["bindgen", "--formatter=none", hp] + flags_of(o) + ex, "callbacks": None})
             meta[jid] = (fname, o, text)
+        # cuts: an allowlist with one root and a restricted set of item kinds - what is emitted must still be
+        # closed (a type named by an emitted item is emitted whatever kinds of items are switched off)
+        if "--blocklist-type" not in extra and "--no-recursive-allowlist" not in extra:
+            tags = [t for t in re.findall(r"\b(?:struct|union|class)\s+([A-Za-z_]\w*)\s*(?::[^{;]*)?\{", text)
+                    if not t.startswith("__")]
+            for c_, (root, cut) in enumerate([(t, cut) for t in tags[-2:]
+                                              for cut in (["--generate", "types"], ["--ignore-functions", "--ignore-methods"],
+                                                          ["--generate", "types,vars"])]):
+                jid = "%s@cut%02d" % (fname, c_)
+                jobs.append({"id": jid, "args": ["bindgen", "--formatter=none", hp, "--allowlist-type", root] + cut + list(extra),
+                             "callbacks": None})
+                meta[jid] = (fname, {"edition": "2021", "o": {}}, text)
     # collision pairs: identifiers with '$' need -fdollars-in-identifiers (clang default: on)
     plist = sorted(pairs.values(), key=lambda p: (p["a"], p["b"]))
     plist = [p for p in plist if re.match(r"^[a-z][a-z_$0-9]*$", p["a"]) and re.match(r"^[a-z][a-z_$0-9]*$", p["b"])]
